@@ -279,7 +279,7 @@ func (m c04) Run(c *core.Ctx) {
 			c.Nontrivial("boundary " + bcase.name)
 		}
 	}
-	n := c.Pick(400, 8000)
+	n := c.Pick(400, 30000)
 	o := gen.Opts{MaxStmts: 26, MaxDepth: 4, ExprDepth: 3, Try: 0.35, Throw: 0.15, Funcs: 0.6, Shadow: 0.2, LogProb: 0.2,
 		Consts: 0.5, Globals: true, DeepRecursion: 20, Faults: 0.004}
 	for i := 0; i < n; i++ {
